@@ -151,6 +151,10 @@ template<class T> void drive(Rng& rng) {
     for (int i = 0; i < (g_thorough ? 60000 : 2000); ++i) { uint64_t a = rnd(), b = rnd(), c = rnd(); binary<T>(a, b); ternary<T>(a, b, c); if (i % 4 == 0) quaternary<T>(a, b, c, rnd()); }
     // mod near exact multiples: x = k * y (+- ulp)
     for (int i = 0; i < (g_thorough ? 20000 : 600); ++i) { T y = from_bits<T>(rnd() & ~SIGN); int k = int(rng.below(41)) - 20; T x = T(k) * y; uint64_t xb = to_bits(x); binary<T>(xb, to_bits(y)); binary<T>(xb + 1, to_bits(y)); binary<T>(xb - 1, to_bits(y)); binary<T>(xb, to_bits(T(-y))); }
+    // every pattern of NaN positions for the n-ary NaN-aware functions
+    { const uint64_t nanb = sizeof(T) == 4 ? 0x7FC00000ull : 0x7FF8000000000000ull; const uint64_t vals[4] = { to_bits(T(1)), to_bits(T(-2)), to_bits(T(0.5)), to_bits(T(3)) };
+      for (int mask = 0; mask < 16; ++mask) for (int rot = 0; rot < 4; ++rot) { uint64_t a[4]; for (int i = 0; i < 4; ++i) a[i] = (mask >> i) & 1 ? (nanb | (i == 1 ? (uint64_t(1) << (sizeof(T) * 8 - 1)) : 0)) : vals[(i + rot) % 4];
+          quaternary<T>(a[0], a[1], a[2], a[3]); ternary<T>(a[0], a[1], a[2]); binary<T>(a[0], a[1]); } }
     constants<T>();
 }
 
